@@ -27,6 +27,12 @@ open Slu
 inductive Milu | silu | smilu1 | smilu2 | smilu3
 deriving BEq, DecidableEq, Repr, Inhabited
 
+/-- the variants in which `drop_sum` is a sum of magnitudes -/
+def Milu.absVariant : Milu → Bool
+  | .smilu2 => true
+  | .smilu3 => true
+  | _ => false
+
 /-- one candidate row of the current column (position `nsupc + k` of the supernode's row list) -/
 structure Cand (K : Type) where
   row : Nat
@@ -84,23 +90,39 @@ structure Scan (R : Type) where
   diag : Option Nat
   ptr0 : Option Nat
 
+/-- one iteration of the scan loop l.119-143 (position `k` of `cands`) -/
+def scanStep (inp : PivIn K R) (s : Scan R) (k : Nat) : Scan R :=
+  let c := inp.cands[k]!
+  if !c.elig then s else
+  let rtemp : R := scanMag inp.milu inp.dropSum c.val
+  { pivmax := if rtemp > s.pivmax then rtemp else s.pivmax,
+    pivptr := if rtemp > s.pivmax then k else s.pivptr,
+    oldPtr := if inp.usepr && c.row == inp.pivrowIn then some k else s.oldPtr,
+    diag := if c.row == inp.diagind then some k else s.diag,
+    ptr0 := if s.ptr0.isNone then some k else s.ptr0 }
+
+def scanInit : Scan R := { pivmax := -(1 : R), pivptr := 0, oldPtr := none, diag := none, ptr0 := none }
+
 /-- the scan loop l.119-143; positions are indices into `cands` -/
-def scan (inp : PivIn K R) : Scan R :=
-  let init : Scan R := { pivmax := -(1 : R), pivptr := 0, oldPtr := none, diag := none, ptr0 := none }
-  (List.range inp.cands.length).foldl (fun (s : Scan R) k =>
-    let c := inp.cands[k]!
-    if !c.elig then s else
-    let rtemp : R := scanMag inp.milu inp.dropSum c.val
-    let s := if rtemp > s.pivmax then { s with pivmax := rtemp, pivptr := k } else s
-    let s := if inp.usepr && c.row == inp.pivrowIn then { s with oldPtr := some k } else s
-    let s := if c.row == inp.diagind then { s with diag := some k } else s
-    if s.ptr0.isNone then { s with ptr0 := some k } else s) init
+def scan (inp : PivIn K R) : Scan R := (List.range inp.cands.length).foldl (scanStep inp) scanInit
+
+/-- the policy of l.188-227 once the column maximum is nonzero: reuse of the remembered pivot
+(`old_pivptr` starts at position 0), else diagonal preference, else the maximum.  Returns the chosen
+position and the new `usepr`. -/
+def choosePtr (inp : PivIn K R) (ds : R) (s : Scan R) (pivmax : R) : Nat × Bool :=
+  let thresh := inp.u * pivmax
+  let tm (k : Nat) : R := testMag inp.milu inp.dropSum ds (inp.cands[k]!).val
+  let op := s.oldPtr.getD 0
+  if inp.usepr && !(tm op == 0) && decide (tm op ≥ thresh) then (op, true) else
+  match s.diag with
+  | some d => if !(tm d == 0) && decide (tm d ≥ thresh) then (d, false) else (s.pivptr, false)
+  | none => (s.pivptr, false)
 
 /-- `ilu_[sd]pivotL`.  `ds` = `drop_sum` seen as a magnitude increment (SMILU_2/3), `ofR` embeds the
 replacement value, `resetInc v` = the increment applied to the chosen pivot by the MILU reset. -/
 def iluPivotChoice (inp : PivIn K R) (ds : R) (ofR : R → K) (resetInc : K → K) : PivOut K :=
   let s := scan inp
-  let pivmax : R := if inp.milu == .smilu2 || inp.milu == .smilu3 then s.pivmax + ds else s.pivmax
+  let pivmax : R := if inp.milu.absVariant then s.pivmax + ds else s.pivmax
   let valAt (k : Nat) : K := (inp.cands[k]!).val
   let rowAt (k : Nat) : Nat := (inp.cands[k]!).row
   if pivmax < 0 then
@@ -117,28 +139,25 @@ def iluPivotChoice (inp : PivIn K R) (ds : R) (ofR : R → K) (resetInc : K → 
         let p := ((List.range inp.cands.length).find? (fun k => rowAt k == fr)).getD 0
         { ret := inp.jcol + 1, pos := some p, pivrow := fr, usepr := false, pivVal := ofR inp.fillTol }
   else
-    let thresh := inp.u * pivmax
-    let tm (k : Nat) : R := testMag inp.milu inp.dropSum ds (valAt k)
-    -- reuse of the remembered pivot
-    let (ptr1, usepr1) : Nat × Bool :=
-      if inp.usepr then
-        let op := s.oldPtr.getD 0
-        if !(tm op == 0) && tm op ≥ thresh then (op, true) else (s.pivptr, false)
-      else (s.pivptr, false)
-    -- diagonal preference
-    let ptr2 : Nat :=
-      if usepr1 then ptr1 else
-      match s.diag with
-      | some d => if !(tm d == 0) && tm d ≥ thresh then d else ptr1
-      | none => ptr1
-    let pivrow := if usepr1 then inp.pivrowIn else rowAt ptr2
+    let cp := choosePtr inp ds s pivmax
+    let ptr2 := cp.1
+    let reuse := cp.2
+    let pivrow := if reuse then inp.pivrowIn else rowAt ptr2
     let v := valAt ptr2
     let v' : K := match inp.milu with
       | .silu => v
       | .smilu1 => v + inp.dropSum
       | _ => v + resetInc v
-    { ret := 0, pos := some ptr2, pivrow := pivrow, usepr := usepr1, pivVal := v' }
+    { ret := 0, pos := some ptr2, pivrow := pivrow, usepr := reuse, pivVal := v' }
 end
+
+/-- `SGN(x)` of ilu_dpivotL.c:27 -/
+def sgnR (x : Rat) : Rat := if x ≥ 0 then 1 else -1
+
+/-- the real routines `ilu_[sd]pivotL` in exact arithmetic: `drop_sum` is a real number, the MILU_2/3
+reset adds `SGN(pivot)*drop_sum` -/
+def realPivot (inp : PivIn Rat Rat) : PivOut Rat :=
+  iluPivotChoice inp inp.dropSum id (fun v => sgnR v * inp.dropSum)
 
 /-! ### the dropping oracle -/
 
